@@ -79,7 +79,8 @@ Mismatch(S, e, c, o) ==
       fail == e.res # "Ok"
       ep  == IF fail THEN "C05" ELSE EffectProp(e.op)
   IN
-  (IF ok THEN {} ELSE {IF RemovedArg(S, e) THEN "C12:result" ELSE "C05:result", "C05:result"}) \cup
+  (IF ok THEN {} ELSE {IF RemovedArg(S, e) THEN "C12:result" ELSE "C05:result", "C05:result"}
+                       \cup (IF o.res = {"Ok"} THEN {EffectProp(e.op) \o ":valid-call-failed"} ELSE {})) \cup
   (IF ~ok THEN {} ELSE
      (IF e.count = T.count THEN {} ELSE {(IF e.op \in {"new", "append_value"} THEN "C07" ELSE ep) \o ":count"}) \cup
      (IF Rng(e.live) = T.live THEN {} ELSE {(IF e.op \in {"new", "append_value"} THEN "C07" ELSE ep) \o ":live"}) \cup
@@ -130,6 +131,11 @@ InjectMismatch(T, e) ==
 
 SoftClauses == {"C12:removed-links"}
 
+LinkRecOf(tp) == [parent |-> tp[1], prev |-> tp[2], next |-> tp[3], first |-> tp[4], last |-> tp[5]]
+RecordedStateClauses(e) ==
+  IF ~Has(e, "links") THEN {}
+  ELSE FailedClauses([x \in 1..e.count |-> LinkRecOf(e.links[x])], Rng(e.live)) \ {"C12:Bare"}
+
 Stop(what) == /\ bad' = <<l, what, Rec[l]>>
               /\ l' = Len(Rec) + 1
               /\ UNCHANGED vars
@@ -169,7 +175,12 @@ TNext ==
           THEN Stop({"C07:slot"})
      ELSE LET c == CallOf(S, e) IN
           IF ~ValidCall(S, c) THEN Stop({"C07:slot-lost"})      \* a freed slot is not reusable although it is young
-          ELSE LET o == Step(S, c) m == Mismatch(S, e, c, o) IN
+          ELSE LET o  == Step(S, c)
+                   m0 == Mismatch(S, e, c, o)
+                   \* when the event is not a step of the specification, also say which link-level
+                   \* formulas (C01 / C02 / C12) the RECORDED state itself violates
+                   m  == IF m0 \ SoftClauses = {} THEN m0 ELSE m0 \cup RecordedStateClauses(e)
+               IN
                \* links reported by REMOVED slots are not part of the specification's state: such a
                \* mismatch is reported (C12) but validation continues, so that it cannot hide a later one
                IF m \ SoftClauses # {} THEN Stop(m)
